@@ -50,18 +50,46 @@ func (c *VCtx) atomicHook(fr *Frame, st *State, l *Loc, pre bool) {}
 
 // observe lets an arbitrary amount of time pass (other threads may have closed channels / cancelled contexts).
 func (c *VCtx) observe(st *State) {
+	before := st.clone()
 	old := c.now(st)
 	n := c.fresh("now", SInt)
 	c.fact(Ge(n, old))
 	st.heaps["G:now"] = n
+	c.stableFacts(before, st)
 }
 
-// tick advances time by one step and returns the new time.
-func (c *VCtx) tick(st *State) *Term {
+// stableFacts: predicates declared stable for monitors whose lock is held survive the passage of time
+// (other threads cannot falsify them without the lock).
+func (c *VCtx) stableFacts(before, after *State) {
+	for _, h := range after.held {
+		for _, m := range h.specs {
+			for _, sc := range m.spec.Stable {
+				b := c.translateBool(c.objScope(m, before, before), sc.E)
+				a := c.translateBool(c.objScope(m, after, after), sc.E)
+				c.fact(Implies(And(after.pc, b), a))
+			}
+		}
+	}
+}
+
+// tick advances time by one step and returns the new time. The instant belongs to the caller's event:
+// the only channel that becomes closed exactly at this instant is only (may be nil: none).
+func (c *VCtx) tick(st *State, only *Term, byOthers bool) *Term {
+	before := st.clone()
 	old := c.now(st)
 	n := c.fresh("now", SInt)
 	c.defFact(n, Eq(n, Add(old, IntLit(1))))
 	st.heaps["G:now"] = n
+	fn := c.declareFun("closedAt", []Sort{SRef}, SInt)
+	if only != nil {
+		c.fact(T(SBool, fmt.Sprintf("(forall ((w Ref)) (! (=> (= (%s w) %s) (= w %s)) :pattern ((%s w))))", fn, n.S, only.S, fn)))
+	} else {
+		c.fact(T(SBool, fmt.Sprintf("(forall ((w Ref)) (! (not (= (%s w) %s)) :pattern ((%s w))))", fn, n.S, fn)))
+	}
+	if byOthers {
+		// the event is not one of this package's own close() calls: stable predicates of held monitors survive
+		c.stableFacts(before, st)
+	}
 	return n
 }
 
@@ -509,17 +537,60 @@ func (c *VCtx) noteCallback(fr *Frame, st *State, f *Term, args []Val) {}
 
 // monitorEntry / monitorExit: ghost statements at function entry and exit.
 func (c *VCtx) monitorEntry(fr *Frame, st *State, ct *FuncContract) {
-	c.runGhost(fr, st, ct, "entry")
+	// "opt holds = <lockfield>": the function is a ...Locked helper that runs inside a critical section of
+	// its receiver: the lock is held and the object invariant holds on entry, and must hold again on exit.
+	if lf := ct.Opts["holds"]; lf != "" && fr.fn.Signature.Recv() != nil {
+		recv := c.asTerm(fr.env[fr.fn.Params[0]])
+		stT := deref(fr.fn.Params[0].Type())
+		cur, curT := recv, stT
+		for _, part := range strings.Split(lf, ".") {
+			stt := curT.Underlying().(*types.Struct)
+			found := false
+			for i := 0; i < stt.NumFields(); i++ {
+				if stt.Field(i).Name() == part {
+					cur = c.embedAddr(cur, curT, part, stt.Field(i).Type())
+					curT = stt.Field(i).Type()
+					found = true
+				}
+			}
+			if !found {
+				unsup("opt holds: no field %s", part)
+			}
+		}
+		c.acquireNoHavoc(fr, st, cur)
+		c.heldAtEntry = cur
+	}
 }
 
 func (c *VCtx) monitorExit(fr *Frame, st *State, ct *FuncContract) {
+	if c.heldAtEntry != nil {
+		c.release(fr, st, c.heldAtEntry, fr.fn.Pos())
+	}
 	if len(st.held) > 0 {
 		c.staticObl("lock.leak", "no lock is still held when the function returns", false, "returns while holding "+heldNames(st))
 	}
 }
 
+// acquireNoHavoc marks the lock held and assumes the invariants (used for functions that start inside a critical section).
+func (c *VCtx) acquireNoHavoc(fr *Frame, st *State, lock *Term) {
+	h := &heldLock{obj: lock, write: true}
+	for _, o := range c.lockOwners(lock) {
+		sp := c.objectSpec(o.typ)
+		c.guardedHeaps(sp, o.typ)
+		h.specs = append(h.specs, &monitorRef{spec: sp, obj: o.obj, objT: o.typ})
+	}
+	st.held[lock.S] = h
+	for _, m := range h.specs {
+		sc := c.objScope(m, st, st)
+		for _, inv := range m.spec.Invs {
+			c.fact(Implies(st.pc, c.translateBool(sc, inv.E)))
+		}
+		m.entry = st.clone()
+	}
+}
+
 // runGhost executes the ghost assignments attached to a program point: "g[k] := e" or "x.g := e".
-func (c *VCtx) runGhost(fr *Frame, st *State, ct *FuncContract, at string) {
+func (c *VCtx) runGhost(fr *Frame, st *State, ct *FuncContract, at string, extra map[string]Val) {
 	if ct == nil {
 		return
 	}
@@ -527,11 +598,11 @@ func (c *VCtx) runGhost(fr *Frame, st *State, ct *FuncContract, at string) {
 		if g.At != at {
 			continue
 		}
-		c.ghostAssign(fr, st, ct, g)
+		c.ghostAssign(fr, st, ct, g, extra)
 	}
 }
 
-func (c *VCtx) ghostAssign(fr *Frame, st *State, ct *FuncContract, g *GhostStmt) {
+func (c *VCtx) ghostAssign(fr *Frame, st *State, ct *FuncContract, g *GhostStmt, extra map[string]Val) {
 	lhsSrc, rhsSrc, ok := strings.Cut(g.Src, ":=")
 	if !ok {
 		unsup("ghost statement needs ':=' (%s)", g.Src)
@@ -545,6 +616,9 @@ func (c *VCtx) ghostAssign(fr *Frame, st *State, ct *FuncContract, g *GhostStmt)
 		unsup("ghost rhs: %v", err)
 	}
 	sc := &Scope{c: c, vars: c.baseVars(fr), st: st, old: fr.entry, fr: fr, pkg: fnPkgPath(fr.fn), exitOf: fr.curBlock}
+	for k, v := range extra {
+		sc.vars[k] = v
+	}
 	for i, p := range fr.fn.Params {
 		sc.vars[p.Name()] = fr.env[p]
 		if i == 0 && fr.fn.Signature.Recv() != nil {
@@ -552,6 +626,10 @@ func (c *VCtx) ghostAssign(fr *Frame, st *State, ct *FuncContract, g *GhostStmt)
 		}
 	}
 	v := c.asTerm(c.translate(sc, rhs))
+	if st.pc.S != "true" {
+		// the assignment happens only on the current path
+		defer func(saved *State) {}(nil)
+	}
 	switch l := lhs.(type) {
 	case *EField:
 		base := c.asTerm(c.translate(sc, l.X))
@@ -610,6 +688,12 @@ func (c *VCtx) selectInstr(fr *Frame, st *State, x *ssa.Select) Val {
 	if x.Blocking {
 		c.blockingPoint(fr, st, x.Pos())
 	}
+	c.curSelectChans = nil
+	for _, s := range x.States {
+		c.curSelectChans = append(c.curSelectChans, fr.term(s.Chan))
+	}
+	c.curSelectBlocking = x.Blocking
+	c.pointAsserts(fr, st, fmt.Sprintf("select %d", selectOrdinal(fr.fn, x)), x.Pos())
 	c.observe(st)
 	idx := c.fresh("sel", SInt)
 	lo := int64(0)
@@ -649,4 +733,39 @@ func (c *VCtx) selectInstr(fr *Frame, st *State, x *ssa.Select) Val {
 type selectInfo struct {
 	instr *ssa.Select
 	idx   *Term
+}
+
+func selectOrdinal(fn *ssa.Function, x *ssa.Select) int {
+	n := 1
+	for _, b := range fn.Blocks {
+		for _, in := range b.Instrs {
+			if s, ok := in.(*ssa.Select); ok && s != x && s.Pos() < x.Pos() {
+				n++
+			}
+		}
+	}
+	return n
+}
+
+// pointAsserts proves the contract's assertions attached to a program point of the current frame's function.
+func (c *VCtx) pointAsserts(fr *Frame, st *State, point string, pos token.Pos) {
+	if fr.contract == nil || fr.contract.Asserts == nil {
+		return
+	}
+	if c.pointsHit == nil {
+		c.pointsHit = map[string]bool{}
+	}
+	c.pointsHit[FuncKey(fr.fn)+"|"+point] = true
+	for i, a := range fr.contract.Asserts[point] {
+		sc := &Scope{c: c, vars: c.baseVars(fr), st: st, old: fr.entry, fr: fr, pkg: fnPkgPath(fr.fn), exitOf: fr.curBlock}
+		for j, p := range fr.fn.Params {
+			sc.vars[p.Name()] = fr.env[p]
+			if j == 0 && fr.fn.Signature.Recv() != nil {
+				sc.vars["this"] = fr.env[p]
+			}
+		}
+		g := c.translateBool(sc, a.E)
+		c.prove(fmt.Sprintf("assert.%s.%s", strings.ReplaceAll(point, " ", ""), clauseLabel(a, i)), fmt.Sprintf("assertion at %s (%s): %s", point, c.eng.pos(pos), a.Src), st.pc, g, nil)
+		c.fact(Implies(st.pc, g))
+	}
 }
